@@ -175,8 +175,12 @@ func gen(tier string, r *lib.Rand, emit func(string)) {
 	e([]*big.Int{big.NewInt(1), big.NewInt(2), new(big.Int).Neg(big64)})
 
 	// (a) every valid chain of lengths in every element order; a sample with the 1 moved / one value perturbed
+	var pool [][]*big.Int // chains for the storage-shape and history streams
 	allChains(maxlen, sampleFrom, num, den, r, func(c []int64) {
 		e(ints(c))
+		if len(c) >= 2 && (len(c) <= 6 || r.Chance(1, 12)) {
+			pool = append(pool, ints(c))
+		}
 		if len(c) >= 3 && r.Chance(1, 40) {
 			d := append([]int64{}, c...)
 			p := r.Range(1, len(d)-1)
@@ -201,11 +205,40 @@ func gen(tier string, r *lib.Rand, emit func(string)) {
 		}
 		c := randomChain(n, b, r)
 		e(ints(c))
+		if b <= 120 && r.Chance(1, 3) {
+			pool = append(pool, ints(c))
+		}
 		if r.Chance(1, 3) {
 			d := append([]int64{}, c...)
 			sort.Slice(d, func(a, b int) bool { return d[a] < d[b] })
 			e(ints(d))
 		}
+	}
+
+	// (e) storage shapes: the same chains held with spare capacity, as a prefix of a longer slice,
+	// and made of integers shared with a second chain; (f) call histories in one process: the same
+	// input object twice, equal chains, a related chain in between, a refused input first
+	// (invalid chain, empty chain, or a value that does not fit a machine word)
+	if tier != "thorough" && len(pool) > 700 {
+		pool = pool[:700]
+	}
+	for i, c := range pool {
+		m.emitShapes(c, r, emit)
+		other := pool[r.Intn(len(pool))]
+		if r.Chance(1, 2) {
+			other = lib.CloneInts(c)
+			sort.Slice(other, func(a, b int) bool { return other[a].Cmp(other[b]) < 0 })
+		}
+		bad := lib.CloneInts(c)
+		p := r.Range(0, len(bad)-1)
+		bad[p].Add(bad[p], big.NewInt(int64(r.Range(1, 3))))
+		switch i % 4 {
+		case 0:
+			bad = []*big.Int{}
+		case 1:
+			bad = []*big.Int{big.NewInt(1), big.NewInt(2), big64}
+		}
+		m.emitHistories(c, other, bad, r, emit)
 	}
 }
 
@@ -228,40 +261,14 @@ func errClass(err error) string {
 	return "other"
 }
 
-func run(c string) string {
-	f := strings.Split(c, " ")
-	in := addchain.Chain(lib.ParseHexList(f[1]))
-	out, err := dict.RunsChain(in)
+func line(out []*big.Int, err error) string {
 	if err != nil {
 		return "err " + errClass(err)
 	}
 	return "ok " + lib.HexList(out)
 }
 
-func oracle(c, res string) string {
-	f := strings.Split(c, " ")
-	in := lib.ParseHexList(f[1])
-	keep := lib.CloneInts(in)
-	arg := addchain.Chain(lib.CloneInts(in))
-	ptrs := append([]*big.Int{}, arg...)
-	out, err := dict.RunsChain(arg)
-	if len(arg) != len(keep) {
-		return "input length changed"
-	}
-	for i := range arg {
-		if arg[i] != ptrs[i] || arg[i].Cmp(keep[i]) != 0 {
-			return fmt.Sprintf("input chain modified at position %d", i)
-		}
-	}
-	got := ""
-	if err != nil {
-		got = "err " + errClass(err)
-	} else {
-		got = "ok " + lib.HexList(out)
-	}
-	if got != res {
-		return "second call gave a different result"
-	}
+func judge(in, out []*big.Int, err error) string {
 	if !isChain(in) {
 		// not a chain of lengths: must be refused, never turned into some chain
 		if err == nil {
@@ -299,14 +306,22 @@ func oracle(c, res string) string {
 	return ""
 }
 
+var m = impl{
+	plainFn: "runschain", shapeFn: "runsshape", histFn: "runshist",
+	call:  func(in addchain.Chain) (addchain.Chain, error) { return dict.RunsChain(in) },
+	line:  line,
+	judge: judge,
+	// RunsChain builds every element of its result itself: nothing is shared with the input
+	sharesElems: false,
+}
+
 func nontrivial(c, res string) bool {
-	f := strings.Split(c, " ")
-	in := lib.ParseHexList(f[1])
+	in := m.subject(c)
 	return len(in) >= 3 && isChain(in) && strings.HasPrefix(res, "ok ")
 }
 
 func main() {
-	lib.Main(lib.Prop{ID: "C11", Gen: gen, Run: run, Oracle: oracle, Nontrivial: nontrivial,
+	lib.Main(lib.Prop{ID: "C11", Gen: gen, Run: m.run, Oracle: m.oracle, Nontrivial: nontrivial, Neighbours: m.neighbours,
 		PanicClass: func(v interface{}) string {
 			if strings.Contains(fmt.Sprint(v), "index out of range") {
 				return "index"
